@@ -434,6 +434,12 @@ def build():
         missing = sorted(need - chains)
         if not chains:
             return False, "anchor lost: update_cell_styles reads no cell.style attribute", 0
+        # the fields must stay apart in the key: str(a) + str(b) spells (1.0, 6251.0) and (1.0625, 1.0) alike
+        glued = [n for n in ast.walk(fi.node) if isinstance(n, ast.BinOp) and isinstance(n.op, ast.Add)
+                 and all(isinstance(x, ast.Call) and ast.unparse(x.func) == "str" for x in (n.left, n.right))]
+        if glued:
+            return False, [f"L{glued[0].lineno}: the key concatenates the string forms of two attributes (`{ast.unparse(glued[0])[:80]}`): different styles can "
+                           "spell the same key and are then saved as one cell style"], len(need) + 1
         return (not missing), ([f"the key that decides whether two cells share one saved cell style does not read {m}: styles that differ only there are merged"
                                 for m in missing][:5]), len(need)
     plan.ground.append(("cell-style-key-reads-every-cell-attribute", fingerprint_complete))
@@ -593,6 +599,14 @@ def build():
                              search=srch("search_borders"),
                              canaries=[lambda ex, env: z3.BoolVal(len(env["g_log"]) == 2)]))
 
+    # each table keeps its own style list (structural obligation on add_table, shared with C03)
+    from contracts.shared_ground import added_table_owns_every_keyed_list
+    plan.ground.append(("added-table-owns-every-keyed-list", added_table_owns_every_keyed_list))
+    plan.bounded.append(BoundedStandIn(
+        "styles-of-two-tables", "c15_two_tables.py", [],
+        bound="2 documents (a table added to the same sheet / to a new sheet): styles and data formats on cells of both tables, more of them after the first "
+              "save, compared after each of three saves of the same open document",
+        functions=["model.add_table (per-table style / format lists)", "Document.add_style", "Table.set_cell_style", "update_cell_styles / update_paragraph_styles"]))
     plan.bounded.append(BoundedStandIn(
         "strokes-and-styles", "c15_styles.py", [], thorough_args=["--level", "2"], timeout=1500,
         bound="borders: every single stroke (4 sides x 9 cells x lengths 1..3) on a 3x3 table, pairs (11 first strokes x every/each third second "
